@@ -1245,6 +1245,7 @@ func (w *world) getters(pos position, s, key string, sts []setting, T reflect.Ty
 		w.res.Ev("prepared_config_unbuildable", 1)
 		return false
 	}
+	w.hybridRendering(pos, s, hy, prefix, suffix)
 	// per usage: 0 = EnableNumKeys(false) not run for this MaxIdx, 1 = agreed, 2 = deviated
 	var fstate [3]int8
 	for i, st := range sts {
@@ -1508,6 +1509,10 @@ func (w *world) runString(s string, sts []setting) (wrongIndex bool) {
 				if wi {
 					wrongIndex = true
 				}
+			}
+			if key != "" && !(segs[0].index && segs[0].v > w.capTop) && !interiorLarge(segs, st, w.capInterior) {
+				w.refsUsage(pos, key, st, segs)
+				w.policyUsage(pos, s, key, st, segs)
 			}
 		}
 		if heavy && pi != 0 {
